@@ -7,6 +7,7 @@ import (
 	"path/filepath"
 	"sort"
 	"strings"
+	"sync"
 	"testing"
 
 	"github.com/buildbarn/bb-remote-execution/pkg/builder"
@@ -15,6 +16,7 @@ import (
 	"github.com/buildbarn/bb-storage/pkg/filesystem"
 	"github.com/buildbarn/bb-storage/pkg/filesystem/path"
 	"golang.org/x/sync/semaphore"
+	"google.golang.org/grpc/status"
 	"pgregory.net/rapid"
 
 	"verif/harness/internal/simkit"
@@ -30,6 +32,71 @@ type naiveHeader struct {
 	MaxBytes    int64       `json:"maxBytes"`
 	Concurrency int64       `json:"concurrency"`
 	Merges      int         `json:"merges"`
+	// Cancellation of the caller's context: "" (none), "at" (when file
+	// download number CancelAt starts) or "window" (the last
+	// min(concurrency, files) downloads are held until all downloads have
+	// started, i.e. the directory traversal has launched everything; then
+	// the context is cancelled and they are let go).
+	Cancel   string `json:"cancel,omitempty"`
+	CancelAt int    `json:"cancelAt,omitempty"`
+}
+
+// cancelPlan is the Get hook that implements naiveHeader.Cancel.
+type cancelPlan struct {
+	mu       sync.Mutex
+	fileKeys map[string]bool
+	mode     string
+	at       int
+	total    int
+	window   int
+	started  int
+	fired    bool
+	cancel   context.CancelFunc
+	released chan struct{}
+}
+
+func (p *cancelPlan) hook(key string) {
+	if !p.fileKeys[key] {
+		return
+	}
+	p.mu.Lock()
+	idx := p.started
+	p.started++
+	last := p.started == p.total
+	p.mu.Unlock()
+	switch p.mode {
+	case "at":
+		if idx == p.at {
+			p.fired = true
+			p.cancel()
+		}
+	case "window":
+		if last {
+			p.fired = true
+			p.cancel()
+			close(p.released)
+		} else if idx >= p.total-p.window {
+			<-p.released
+		}
+	}
+}
+
+// countFiles returns the number of file entries of the expanded DAG.
+func countFiles(g *dagSpec) int {
+	var count func(t int) int
+	count = func(t int) int {
+		n := 0
+		for _, e := range g.Dirs[t].Entries {
+			switch e.Kind {
+			case kindFile:
+				n++
+			case kindDir:
+				n += count(e.Child)
+			}
+		}
+		return n
+	}
+	return count(g.root())
 }
 
 // renderDisk lists a directory tree on the local file system in the same
@@ -112,7 +179,7 @@ func renderSpec(mat *materialized, badTmpl map[int]string) (string, bool) {
 
 func TestC17NaiveBuildDirectory(t *testing.T) {
 	rec := simkit.NewRecorder(t, "C17", "naive-build-directory",
-		"rapid: DAG (+0-1 malformation) in the fake CAS; real naiveBuildDirectory over a real local directory (per-run temporary directory under VERIF_SCRATCH, removed before the test returns) with the real BlobAccessFileFetcher, optionally wrapped by HardlinkingFileFetcher with a 1-3 entry cache directory, caching or plain directory fetcher, download concurrency 1-4; MergeDirectoryContents of the same root into 1-3 build directories in a row (later ones are served from the hard link cache, with evictions). Oracle: if nothing reachable is malformed/missing/corrupted, the merge succeeds and every build directory on disk has exactly the names, kinds, exec bits, symlink targets and bytes of the expanded DAG (earlier ones still intact after later merges); otherwise the merge reports an error. NON-TRIVIAL: a shared template expanded in >=2 places on disk, >=2 merges and a hard link cache in use, or a malformation below the root that made the merge fail; distinct by script hash")
+		"rapid: DAG (+0-1 malformation) in the fake CAS; real naiveBuildDirectory over a real local directory (per-run temporary directory under VERIF_SCRATCH, removed before the test returns) with the real BlobAccessFileFetcher, optionally wrapped by HardlinkingFileFetcher with a 1-3 entry cache directory, caching or plain directory fetcher, download concurrency 1-4; MergeDirectoryContents of the same root into 1-3 build directories in a row (later ones are served from the hard link cache, with evictions). Oracle: if nothing reachable is malformed/missing/corrupted, the merge succeeds and every build directory on disk has exactly the names, kinds, exec bits, symlink targets and bytes of the expanded DAG (earlier ones still intact after later merges); otherwise the merge reports an error. NON-TRIVIAL: a shared template expanded in >=2 places on disk, >=2 merges and a hard link cache in use, or a malformation below the root that made the merge fail, or the caller's context cancelled while the last downloads were held in flight after the traversal had launched everything; distinct by script hash. Cancellation cases (1 in 3): plain BlobAccessFileFetcher over a fake CAS that honours the context; the context is cancelled when file download #k starts, or when all downloads have started with the last min(concurrency, files) held in flight; oracle: MergeDirectoryContents returns nil => the tree on disk equals the DAG, otherwise it returns an error")
 	scratch := os.Getenv("VERIF_SCRATCH")
 	if scratch == "" {
 		scratch = t.TempDir()
@@ -131,24 +198,49 @@ func TestC17NaiveBuildDirectory(t *testing.T) {
 		caseDir := filepath.Join(base, fmt.Sprintf("case%d", caseNo))
 		defer os.RemoveAll(caseDir)
 		hdr := naiveHeader{Op: "setup", DAG: drawDAG(rt), World: drawWorldConfig(rt)}
-		if rapid.IntRange(0, 2).Draw(rt, "malformed") == 0 {
+		switch rapid.IntRange(0, 5).Draw(rt, "variant") {
+		case 0, 1:
 			ms := drawMalformations(rt, hdr.DAG)
 			if len(ms) > 1 {
 				ms = ms[:1]
 			}
+			// An object that lost its tail on a medium that does not
+			// validate is copied as it is by any fetcher: nothing in the
+			// code under test can notice. Not an input for this check.
+			if len(ms) == 1 && ms[0].Kind == "short_file" {
+				ms = nil
+			}
 			hdr.Malform = ms
+		case 2, 3:
+			// The caller's context (the action's) ends while input files
+			// are being downloaded. Every file gets a non-empty content,
+			// so that file downloads and directory fetches can be told
+			// apart by digest.
+			for i, c := range hdr.DAG.Contents {
+				if c == "" {
+					hdr.DAG.Contents[i] = fmt.Sprintf("e%d", i)
+				}
+			}
+			if nFiles := countFiles(hdr.DAG); nFiles > 0 {
+				hdr.Cancel = rapid.SampledFrom([]string{"window", "window", "at"}).Draw(rt, "cancel")
+				hdr.CancelAt = rapid.IntRange(0, nFiles-1).Draw(rt, "cancelAt")
+			}
 		}
-		hdr.Hardlinking = rapid.IntRange(0, 3).Draw(rt, "hardlinking") > 0
+		hdr.Hardlinking = rapid.IntRange(0, 3).Draw(rt, "hardlinking") > 0 && hdr.Cancel == ""
 		hdr.MaxFiles = rapid.IntRange(1, 3).Draw(rt, "maxFiles")
 		hdr.MaxBytes = rapid.SampledFrom([]int64{1, 50, 1 << 20}).Draw(rt, "maxBytes")
 		hdr.Concurrency = int64(rapid.IntRange(1, 4).Draw(rt, "concurrency"))
 		hdr.Merges = rapid.IntRange(1, 3).Draw(rt, "merges")
+		if hdr.Cancel != "" {
+			hdr.Merges = 1
+		}
 
 		c := newFakeCAS()
 		mat, badTmpl, _, _ := materializeWith(c, hdr.DAG, hdr.Malform)
 		before := c.snapshot()
 		want, mustFail := renderSpec(mat, badTmpl)
 
+		cancelOutcome := ""
 		var fileFetcher cas.FileFetcher = cas.NewBlobAccessFileFetcher(c)
 		if hdr.Hardlinking {
 			cachePath := filepath.Join(caseDir, "cache")
@@ -164,6 +256,16 @@ func TestC17NaiveBuildDirectory(t *testing.T) {
 		}
 		directoryFetcher := newDirectoryFetcher(c, hdr.World)
 		sem := semaphore.NewWeighted(hdr.Concurrency)
+		mergeCtx := ctx
+		var plan *cancelPlan
+		if hdr.Cancel != "" {
+			var cancel context.CancelFunc
+			mergeCtx, cancel = context.WithCancel(ctx)
+			defer cancel()
+			nFiles := countFiles(hdr.DAG)
+			plan = &cancelPlan{fileKeys: c.fileKeys, mode: hdr.Cancel, at: hdr.CancelAt, total: nFiles, window: min(int(hdr.Concurrency), nFiles), cancel: cancel, released: make(chan struct{})}
+			c.getHook = plan.hook
+		}
 		var roots []string
 		for m := 0; m < hdr.Merges; m++ {
 			buildPath := filepath.Join(caseDir, fmt.Sprintf("build%d", m))
@@ -175,8 +277,23 @@ func TestC17NaiveBuildDirectory(t *testing.T) {
 				rt.Fatalf("cannot open build directory: %v", err)
 			}
 			bd := builder.NewNaiveBuildDirectory(buildDirectory, directoryFetcher, fileFetcher, sem, c)
-			err = bd.MergeDirectoryContents(ctx, &errLogger{}, mat.rootDigest(), nil)
+			err = bd.MergeDirectoryContents(mergeCtx, &errLogger{}, mat.rootDigest(), nil)
 			bd.Close()
+			if plan != nil {
+				// Success is only acceptable if everything is there;
+				// an error is always acceptable.
+				c.getHook = nil
+				if err == nil {
+					got, lerr := renderDisk(buildPath)
+					if lerr != nil || got != want {
+						rt.Fatalf("the caller's context was cancelled (%s, download %d of %d started) and MergeDirectoryContents reported success, but the build directory on disk is\n%s\n(%v) while the requested tree is\n%s\nscript=%s", hdr.Cancel, plan.started, plan.total, got, lerr, want, jsonOf(hdr))
+					}
+					cancelOutcome = "cancelled_but_complete"
+				} else {
+					cancelOutcome = "cancelled_and_failed:" + status.Code(err).String()
+				}
+				continue
+			}
 			if mustFail {
 				if err == nil {
 					got, _ := renderDisk(buildPath)
@@ -220,14 +337,18 @@ func TestC17NaiveBuildDirectory(t *testing.T) {
 			}
 		}
 		add(mustFail, "merge_failed_as_required")
-		add(!mustFail, "tree_on_disk_equal")
+		add(!mustFail && plan == nil, "tree_on_disk_equal")
 		add(shared, "shared_subtree")
 		add(hdr.Hardlinking, "hardlink_cache")
 		add(hdr.Merges > 1, "several_merges")
+		if plan != nil {
+			labels = append(labels, "cancel:"+hdr.Cancel, cancelOutcome)
+			add(plan.fired && hdr.Cancel == "window", "cancelled_with_downloads_in_flight_after_traversal")
+		}
 		for _, m := range hdr.Malform {
 			labels = append(labels, "malformed:"+m.Kind)
 		}
-		nontrivial := (!mustFail && shared && hdr.Merges > 1 && hdr.Hardlinking) || (mustFail && (badBelowRoot || len(mat.badKeys) > 0))
+		nontrivial := (plan != nil && plan.fired && hdr.Cancel == "window") || (!mustFail && shared && hdr.Merges > 1 && hdr.Hardlinking) || (mustFail && (badBelowRoot || len(mat.badKeys) > 0))
 		rec.Case(hdr, nontrivial, labels...)
 	})
 }
